@@ -29,7 +29,7 @@ RULE = ("case = one point of a clause's finite product space: (shape (out_r,in_r
 ASSUMPTIONS = [
     "numpy @, kron, conj, eigvalsh are correct (primitives of the reference, not the mechanism under test)",
     "alg tolerance 1e-9*max(1,|expected|) on entries O(1..100); spec tolerance 1e-6 for eigenvalue comparisons",
-    "shapes bounded: local dims in {1,2,3} (quick) / {1,2,3,4} (thorough), rank <= 4; complementary families d in {2,3}, r <= 3 (quick) / d<=4, r<=4 (thorough)",
+    "shapes bounded: local dims in {1,2,3} (quick) / {1,2,3,4} (thorough), rank <= 4; complementary families d in {2,3,4}, r <= 4 (d=4: r <= 2 in quick)",
     "boolean predicates (is_unital / is_trace_preserving, completeness check inside complementary_channel) are only judged on inputs "
     "whose deviation from the identity is either <= 1e-12 or >= 1e-3 (>= 100x the predicates' rtol=1e-5)",
     "is_trace_preserving is only called with the pairs and Choi forms (its behaviour on flat lists belongs to C06)",
@@ -92,6 +92,11 @@ def _same_representation(phi, D, form, shape):
         return None
     if not all(isinstance(x, list) and len(x) == len(p) for x, p in zip(D, phi)):
         return "dual of a nested list must have the same nesting"
+    if form == "pairs":
+        if not all(np.shape(x[0]) == (i_r, o_r) and np.shape(x[1]) == (i_c, o_c) for x in D):
+            return "dual of a pairs list must consist of (in_r x out_r, in_c x out_c) operator pairs"
+    elif not all(np.shape(k) == (i_r, o_r) for x in D for k in x):
+        return "dual of a nested/row list must consist of (in x out) arrays"
     return None
 
 
@@ -443,14 +448,14 @@ def tp_family(spec):
 
 
 def comp_specs(tier):
-    ds = (2, 3) if tier == "quick" else (2, 3, 4)
-    rs = (1, 2, 3) if tier == "quick" else (1, 2, 3, 4)
+    ds = (2, 3, 4)
     out = []
     for d in ds:
+        rs = (1, 2, 3, 4) if (tier == "thorough" or d < 4) else (1, 2)
         for r in rs:
             for u in ("F", "P", "H", "g0", "g1"):
                 out.append({"t": "iso", "d": d, "r": r, "u": u})
-            out.append({"t": "iso_rot", "d": d, "r": r, "u": "F"})
+                out.append({"t": "iso_rot", "d": d, "r": r, "u": u})
     for g in (0.0, 0.1, 0.25, 0.5, 0.75, 0.9, 1.0):
         out.append({"t": "amp", "g": g})
     for p in ([0.5, 0.5, 0, 0], [0.5, 0, 0.25, 0.25], [0.25, 0.25, 0.25, 0.25], [0.7, 0.1, 0.1, 0.1], [0, 0.5, 0.5, 0]):
